@@ -211,7 +211,97 @@ def exec_case(ctx, case: Dict[str, Any]) -> None:
                sample={"case": case, "per_caller": shape})
 
 
+def exec_stdio_case(ctx, case: Dict[str, Any]) -> None:
+    """The same question through the real stdio transport: n callers on one stdio connection, the child answers
+    in caller order - line by line, as one batch array, or as a batch that also holds junk elements."""
+    import importlib
+    import json
+    from chuk_mcp.protocol.messages.send_message import send_message
+    from chuk_mcp.transports.stdio.parameters import StdioParameters
+    from vf.recorders import OpenProcessPatch, ScriptedProcess
+    SC = importlib.import_module("chuk_mcp.transports.stdio.stdio_client")
+    n, form = case["n"], case["form"]
+
+    def factory(command, **kw):
+        p = ScriptedProcess([], hold_open=True)
+        orig = p.stdin.send
+        st = {"buf": b"", "reqs": []}
+
+        async def send(data):
+            await orig(data)
+            st["buf"] += data
+            while b"\n" in st["buf"]:
+                line, st["buf"] = st["buf"].split(b"\n", 1)
+                try:
+                    req = json.loads(line)
+                except Exception:
+                    continue
+                if "id" in req and "method" in req:
+                    st["reqs"].append(req)
+            if len(st["reqs"]) == n:
+                reqs, st["reqs"] = st["reqs"], []
+                answers = [{"jsonrpc": "2.0", "id": r["id"], "result": {"tag": r["params"]["tag"]}} for r in reqs]
+                junk = [{"jsonrpc": "2.0", "id": None, "error": {"code": -32600, "message": "Invalid Request"}},
+                        {"foo": 1}, 42]
+                if form == "lines":
+                    payload = "".join(json.dumps(a) + "\n" for a in answers)
+                elif form == "batch":
+                    payload = json.dumps(answers) + "\n"
+                elif form == "batch_junk_first":
+                    payload = json.dumps(junk[:1] + answers) + "\n"
+                elif form == "batch_junk_between":
+                    payload = json.dumps([answers[0], junk[1]] + answers[1:] + [junk[2]]) + "\n"
+                else:
+                    payload = json.dumps(junk + answers) + "\n"
+                p.feed(payload.encode())
+        p.stdin.send = send
+        return p
+
+    async def main():
+        outcomes: Dict[int, Any] = {}
+        with OpenProcessPatch(factory):
+            async with SC.stdio_client(StdioParameters(command="scripted")) as (read, write):
+                async def caller(i):
+                    try:
+                        res = await send_message(read, write, "tools/call", {"tag": f"caller-{i}"}, timeout=TIMEOUT)
+                        outcomes[i] = ("return", res)
+                    except BaseException as e:  # noqa
+                        if isinstance(e, (KeyboardInterrupt, SystemExit)):
+                            raise
+                        outcomes[i] = ("raise", e)
+                tasks = []
+                for i in range(n):
+                    tasks.append(asyncio.create_task(caller(i), name=f"caller-{i}"))
+                    await asyncio.sleep(0.01)
+                await asyncio.gather(*tasks)
+        return outcomes
+
+    try:
+        outcomes, _ = run_virtual(main, max_iterations=500_000)
+    except HangDetected as e:
+        ctx.violation("hang", f"stdio: {e}", case)
+        ctx.record(case, shape="hang")
+        return
+    ctx.count("stdio_sessions")
+    shape = []
+    for i in range(n):
+        kind, val = outcomes.get(i, ("none", None))
+        if kind == "return":
+            if not (isinstance(val, dict) and val.get("tag") == f"caller-{i}"):
+                ctx.violation("cross_talk", f"stdio/{form}: caller {i} was handed {val!r}", case)
+        else:
+            ctx.violation("response_lost_in_transport", f"stdio/{form}: caller {i}'s answer was sent in caller order and in "
+                          f"time, yet the call ended with {val!r}", case)
+        shape.append(kind)
+    ctx.record(case, shape=shape, cls=f"stdio:{form}", sample={"case": case, "outcomes": shape})
+
+
 def run(ctx):
+    for n in (2, 3, 4):
+        for form in ("lines", "batch", "batch_junk_first", "batch_junk_between", "batch_all_junk_first"):
+            case = {"n": n, "form": form, "via": "stdio"}
+            if ctx.mine():
+                exec_stdio_case(ctx, case)
     for case in gen_cases(ctx):
         if not ctx.mine():
             continue
@@ -222,4 +312,8 @@ def run(ctx):
 
 
 def replay(ctx, case):
+    if case.get("via") == "stdio":
+        exec_stdio_case(ctx, case)
+        ctx.record({"x": 1}, shape=1)
+        return
     exec_case(ctx, case)
